@@ -29,6 +29,8 @@ THEOREMS = [
 ]
 RULE = ("seeded generator over classes {both empty, one side empty, repeated points (within and across "
         "diagrams), identical multisets in another order at offsets up to 1e5, diagonal points, infinite/nan deaths, Pythagorean offsets (all point-point costs rational), "
+        "input dtype (integer-valued diagrams as uint8/uint16/int8/int16/int32/int64/float32/float64 arrays whose "
+        "differences are negative or exceed the narrow range; spec evaluated on the values), "
         "mixed (optimal matching uses cross and diagonal pairings), dyadic grid, random doubles, scale 2^+-20}; "
         "sizes 0-6 per side (quick), up to 25 (thorough); a case is non-trivial when the call succeeds and either "
         "the optimal matching found independently pairs at least one point across and sends at least one point to "
@@ -102,7 +104,47 @@ def _dgm(rng, n, kind):
     return [(_grid_pt(rng) if kind == "grid" else _rand_pt(rng)) for _ in range(n)]
 
 
+# integer-valued diagrams handed over in a given array dtype; the spec is evaluated on the exact VALUES.
+# (lo, hi) = range the coordinates are drawn from: wide against the dtype, so that differences between
+# points are negative (unsigned wrap-around) or exceed the narrow range (signed overflow).
+DTYPES = {
+    "uint8": (0, 255), "uint16": (0, 65535), "int8": (-128, 127), "int16": (-32768, 32767),
+    "int32": (-2 ** 31, 2 ** 31 - 1), "int64": (-2 ** 40, 2 ** 40), "float32": (-2 ** 23, 2 ** 23),
+    "float64": (-2 ** 40, 2 ** 40),
+}
+
+
+def _dtype_pt(rng, dt):
+    lo, hi = DTYPES[dt]
+    kind = rng.random()
+    if kind < 0.45:      # long bar: birth near the bottom of the range, death near the top
+        b = rng.randint(lo, lo + (hi - lo) // 8)
+        d = rng.randint(hi - (hi - lo) // 8, hi)
+    elif kind < 0.8:     # anywhere
+        b = rng.randint(lo, hi)
+        d = rng.randint(b, hi)
+    else:                # short bar
+        b = rng.randint(lo, hi)
+        d = min(hi, b + rng.randint(0, max(1, (hi - lo) // 64)))
+    return [float(b), float(d)]
+
+
+def _dtype_case(rng, nmax):
+    dt = rng.choice(sorted(DTYPES))
+    dt2 = dt if rng.random() < 0.8 else rng.choice(sorted(DTYPES))
+    m, n = rng.randint(1, max(1, nmax)), rng.randint(0, nmax)
+    S = [_dtype_pt(rng, dt) for _ in range(m)]
+    T = [_dtype_pt(rng, dt2) for _ in range(n)]
+    if rng.random() < 0.3 and dt == dt2 and S:      # the same point on both sides: cost 0, differences of both signs
+        T.insert(rng.randint(0, len(T)), list(rng.choice(S)))
+    if rng.random() < 0.5:
+        S, T, dt, dt2 = T, S, dt2, dt
+    return {"cls": "dtype", "S": S, "T": T, "as_list": False, "dtype": [dt, dt2]}
+
+
 def _case(rng, cls, nmax):
+    if cls == "dtype":
+        return _dtype_case(rng, min(nmax, 6))
     kind = rng.choice(["grid", "rand"])
     m, n = rng.randint(0, nmax), rng.randint(0, nmax)
     S, T = _dgm(rng, m, kind), _dgm(rng, n, kind)
@@ -211,7 +253,7 @@ def _case(rng, cls, nmax):
 
 
 CLASSES = ["both_empty", "one_empty", "repeated", "identical", "diagonal", "infinite", "pythagorean", "mixed", "mixed",
-           "scale", "plain", "plain", "malformed", "repaired", "straddle"]
+           "scale", "plain", "plain", "malformed", "repaired", "straddle", "dtype", "dtype"]
 
 
 def generate(rng, tier):
@@ -247,12 +289,22 @@ def corpus():
     ]
     for c in cs:
         c["as_list"] = False
+    # narrow / unsigned input dtypes: differences wrap around unless the costs are computed in float64
+    cs += [
+        {"S": [[3.0, 200.0]], "T": [[100.0, 120.0]], "as_list": False, "dtype": ["uint8", "uint8"]},
+        {"S": [[-100.0, 100.0]], "T": [[90.0, 110.0]], "as_list": False, "dtype": ["int8", "int8"]},
+        {"S": [[-30000.0, 30000.0], [5.0, 7.0]], "T": [[-29990.0, 29000.0]], "as_list": False, "dtype": ["int16", "int16"]},
+        {"S": [[1.0, 16777215.0]], "T": [[3.0, 16777213.0], [8000001.0, 8000003.0]], "as_list": False, "dtype": ["float32", "float32"]},
+        {"S": [[10.0, 60000.0]], "T": [[200.0, 250.0]], "as_list": False, "dtype": ["uint16", "uint8"]},
+    ]
     import json
     d = core.VERIF / "corpus" / PID
     if d.is_dir():
         for f in sorted(d.glob("*.json")):
             j = json.loads(f.read_text())
             cs.append({"S": j["S"], "T": j["T"], "as_list": bool(j.get("as_list", False))})
+            if j.get("dtype"):
+                cs[-1]["dtype"] = j["dtype"]
     return cs
 
 
@@ -281,7 +333,14 @@ def impl_run(cases):
     outs = []
     try:
         for c in cases:
-            def arr(dg):
+            def arr(dg, side=0):
+                if c.get("dtype") and all(not _is_nonfinite(d) for _, d in dg):
+                    dt = np.dtype(c["dtype"][side])
+                    vals = [[float(b), float(d)] for b, d in dg] if dt.kind == "f" else [[int(b), int(d)] for b, d in dg]
+                    a = np.array(vals, dtype=dt).reshape(-1, 2) if dg else np.array([], dtype=dt)
+                    if dg and [[float(x) for x in r] for r in a.tolist()] != [[float(b), float(d)] for b, d in dg]:
+                        raise RuntimeError("harness: values %r are not representable in %s" % (dg, dt))
+                    return a
                 if c.get("as_int") and all(not _is_nonfinite(d) and float(b).is_integer() and float(d).is_integer()
                                            for b, d in dg):
                     vals = [[int(b), int(d)] for b, d in dg]
@@ -295,14 +354,14 @@ def impl_run(cases):
                 del calls[:]
                 with warnings.catch_warnings(record=True) as w:
                     warnings.simplefilter("always")
-                    d0 = wfun(arr(c["S"]), arr(c["T"]))
+                    d0 = wfun(arr(c["S"], 0), arr(c["T"], 1))
                     o["warn"] = [any("dgm1" in str(x.message) for x in w if "non-finite" in str(x.message)),
                                  any("dgm2" in str(x.message) for x in w if "non-finite" in str(x.message))]
                 o["dist"] = float(d0)
                 o["oracle"] = _monitor(calls)
                 with warnings.catch_warnings():
                     warnings.simplefilter("ignore")
-                    d1, rows = wfun(arr(c["S"]), arr(c["T"]), matching=True)
+                    d1, rows = wfun(arr(c["S"], 0), arr(c["T"], 1), matching=True)
                 o["dist_m"] = float(d1)
                 rows = np.asarray(rows, dtype=float).reshape(-1, 3)
                 o["rows"] = [[float(r[0]), float(r[1]), float(r[2])] for r in rows]
@@ -518,7 +577,7 @@ def predicate(c, o):
     return True, ""
 
 
-EDGE = ("both_empty", "one_empty", "repeated", "identical", "diagonal", "infinite")
+EDGE = ("both_empty", "one_empty", "repeated", "identical", "diagonal", "infinite", "dtype")
 
 
 def nontrivial(c, o):
@@ -735,6 +794,14 @@ def shrink_candidates(c):
             d = dict(c)
             d[key] = False
             yield d
+    if c.get("dtype"):
+        for side in (0, 1):
+            if c["dtype"][side] != "float64":
+                d = dict(c)
+                d["dtype"] = list(c["dtype"])
+                d["dtype"][side] = "float64"
+                yield d
+        return          # coordinates stay as they are: they must remain representable in the dtype
     for digits in (0, 1, 2, 4):
         d = dict(c)
         d["S"] = [[round(b, digits), (x if _is_nonfinite(x) else round(x, digits))] for b, x in c["S"]]
